@@ -24,13 +24,13 @@ type Env struct {
 	pre    *State
 	cur    *State
 	inOld  bool
-	W0     string // watermark at function entry (fresh(p) <=> p > W0)
+	W0     string                  // watermark at function entry (fresh(p) <=> p > W0)
 	decl   func(name, sort string) // declare a fresh constant
 	depth  int
 	useMem func(MemRef) // ensure memory is declared in pre/cur
 	ghost  map[string]Term
 	noteWF func(s string, t types.Type) // a value was read from memory: the runtime guarantees it is well formed
-	abs    map[string]*absVar // bound variables of forall/exists that range over absolute array positions
+	abs    map[string]*absVar           // bound variables of forall/exists that range over absolute array positions
 }
 
 // absVar: the quantifier binds the absolute position a = off + j instead of the index j, so
